@@ -139,6 +139,29 @@ static Level fam_streams(int n, bool single_only) {
             } }};
 }
 
+// large patterns (several statement / value / argument slots, 150-260 LR(1) states) x all combinations of slot fillers
+static Level fam_large(bool full) {
+  return {std::string("large patterns x all slot-filler combinations (") + (full ? "full pools)" : "reduced pools)"), [=](const CB &cb) {
+            std::vector<std::string> P = {"a := 1", "x := RUN f WITH a END", "LOOP a DO b := 1 END", "a := 1 ; b := 2"}, V = {"a", "RUN f WITH a END", "7"}, A = {"a", "a , 7", "RUN f WITH a , 7 END , b"};
+            if (!full) { P.resize(2); V.resize(2); A.resize(2); }
+            struct Pat { std::string def; std::vector<std::string> parts; };  // parts: literal text or "@P" "@V" "@A" "@I"
+            std::vector<Pat> pats = {
+                {"DEFINE for <ID> in ( <P> , <V> = <V> , <P> ) do <P> then <P> else <P> end AS $1 ; LOOP $2 DO $4 ; $5 END ; $0 := $3 ; $6 ; $7 ENDDEF", {"for", "@I", "in", "(", "@P", ",", "@V", "=", "@V", ",", "@P", ")", "do", "@P", "then", "@P", "else", "@P", "end"}},
+                {"DEFINE when <V> then <P> elsif <V> then <P> elsif <V> then <P> otherwise <P> end AS w := $0 ; $1 ; w := $2 ; $3 ; w := $4 ; $5 ; $6 ENDDEF", {"when", "@V", "then", "@P", "elsif", "@V", "then", "@P", "elsif", "@V", "then", "@P", "otherwise", "@P", "end"}},
+                {"DEFINE call3 <ID> ( <A> ) ( <A> ) ( <A> ) AS $0 := RUN g WITH $3 , $2 , $1 END ENDDEF", {"call3", "@I", "(", "@A", ")", "(", "@A", ")", "(", "@A", ")"}}};
+            for (auto &pt : pats) {
+              std::vector<const std::vector<std::string> *> pools; std::vector<std::string> I = {"i"};
+              for (auto &x : pt.parts) if (x[0] == '@') pools.push_back(x == "@P" ? &P : x == "@V" ? &V : x == "@A" ? &A : &I);
+              std::vector<size_t> ix(pools.size(), 0);
+              for (;;) {
+                std::string s2; size_t k = 0; for (auto &x : pt.parts) s2 += (x[0] == '@' ? (*pools[k])[ix[k++]] : x) + " ";
+                cb(mk(pt.def, "q := 0 ; " + s2 + "; q := 1")); 
+                size_t i = 0; while (i < ix.size() && ++ix[i] == pools[i]->size()) ix[i++] = 0;
+                if (i == ix.size()) break;
+              }
+            } }};
+}
+
 // ---- C10 ---------------------------------------------------------------------------------------------------------------
 static std::string g_iflib_prio;  // "" or "PRIO n " inserted into both library definitions
 static const char *IFLIB0 = "DEFINE IF <V> THEN <P> ELSE <P> END AS\n  #0 := 0;\n  #1 := 1;\n  #2 := $0;\n  LOOP #2 DO\n    #0 := 1;\n    #1 := 0\n  END;\n  LOOP #0 DO $1 END;\n  LOOP #1 DO $2 END\nENDDEF\nDEFINE SAVE <ID> <P> RESTORE AS\n  #0 := $0;\n  $1;\n  $0 := #0\nENDDEF\n";
@@ -308,7 +331,8 @@ static Level fam_patterns(int k, bool lists_only = false) {
 int main(int argc, char **argv) {
   drv::Args args = drv::Args::parse(argc, argv); bool T = args.thorough();
   std::vector<Level> L; std::function<void(const Case &, vf::Stats &)> o; double limit = 60;
-  if (args.prop == "C09") { o = oracle_C09; L = {fam_streams(3, false), fam_streams(4, false)}; if (T) { L.push_back(fam_streams(5, false)); L.push_back(fam_streams(6, true)); } }
+  if (args.prop == "C09" && args.part == "large") { o = oracle_C09; g_singlestep = false; L = {fam_large(false)}; limit = 120; }
+  else if (args.prop == "C09") { o = oracle_C09; L = {fam_streams(3, false), fam_large(false), fam_streams(4, false)}; if (T) L.push_back(fam_large(true)); if (T) { L.push_back(fam_streams(5, false)); L.push_back(fam_streams(6, true)); } }
   else if (args.prop == "C10") { o = oracle_C10; L = {fam_nestings(1, 3), fam_nestings(2, 2)}; if (T) { L.push_back(fam_nestings(2, 3)); L.push_back(fam_nestings(3, 2)); } }
   else if (args.prop == "C11") {
     o = [](const Case &c, vf::Stats &st) { if (c.main == "growth") oracle_C11_growth(c, st); else if (c.budget == 1024) oracle_C11_compile(c, st); else oracle_C11(c, st); };
